@@ -516,7 +516,10 @@ def job_clock_resync(num_pols, op):
         clocks = [ant.t_start] + [st.t_start for st in ant.streams]
         flags = [ant.start_obs] + [st.start_obs for st in ant.streams]
         v = ant.get_samples(1)
+        after = [ant.t_start] + [st.t_start for st in ant.streams]
     pairs = [((lift(c), RV(0)), (want, RV(0))) for c in clocks]
+    # ... and one sample later every clock has advanced by exactly one sample period from there
+    pairs += [((lift(c), RV(0)), (want + 1 / P['sr'].t, RV(0))) for c in after]
     for pol in range(num_pols):
         ph = RV(TWO_PI) * ((P['f_start'].t - P['fch1'].t) * want + RV(0.5) * P['drift'].t * want * want)
         pairs.append((cparts(v[0, pol, 0]), (P['level'].t * UF('COS')(ph + P['phase'].t), RV(0))))
@@ -552,6 +555,9 @@ def replay_resync(p):
     clocks = [ant.t_start] + [st.t_start for st in ant.streams]
     flags = [ant.start_obs] + [st.start_obs for st in ant.streams]
     v = ant.get_samples(1)
+    after = [ant.t_start] + [st.t_start for st in ant.streams]
+    if any(abs(c - (want + 1 / 1000.0)) > 1e-9 for c in after):
+        return True, f"{p['op']} then one sample: clocks {after}, expected {want + 1 / 1000.0} (antenna clock first)"
     bad = any(abs(c - want) > 1e-12 for c in clocks) or not all(flags) or not np.allclose(v[0, :, 0], 7.0 * want)
     return bad, f"{p['op']} from diverged clocks: clocks {clocks} (expected {want}), flags {flags}, next sample {v[0, :, 0]} (expected {7.0 * want})"
 
